@@ -643,8 +643,9 @@ func createConnHandler(
 			ctx := stream.Context()
 
 			args := dynamicpb.NewMessage(argsDesc)
-			if err := stream.RecvMsg(args); err != nil {
-				return err
+			inErr := stream.RecvMsg(args)
+			if inErr != nil && !(inErr == io.EOF && sd.ClientStreams) {
+				return inErr
 			}
 
 			if md, ok := metadata.FromIncomingContext(ctx); ok {
@@ -655,23 +656,28 @@ func createConnHandler(
 			if err != nil {
 				return err
 			}
-			if err := clientStream.SendMsg(args); err != nil {
-				return err
+			if inErr == nil {
+				if err := clientStream.SendMsg(args); err != nil {
+					return err
+				}
 			}
 
-			var inErr error
 			var wg sync.WaitGroup
 			if sd.ClientStreams {
 				wg.Add(1)
 				go func() {
-					for {
+					for inErr == nil {
 						args := dynamicpb.NewMessage(argsDesc)
 						if inErr = stream.RecvMsg(args); inErr != nil {
 							break
 						}
 
-						if inErr = clientStream.SendMsg(args); inErr != nil {
-							break
+						inErr = clientStream.SendMsg(args)
+					}
+					if inErr == io.EOF {
+						// The client half-closed: so does the proxy.
+						if err := clientStream.CloseSend(); err != nil {
+							inErr = err
 						}
 					}
 					wg.Done()
